@@ -52,7 +52,7 @@ CoreTokens == Tokens \ ({"-=", "*=", "/=", "%=", "<<=", ">>=", "&=", "|=", "^="}
                               "float", "bool", "0", "//", "/*", "*/"})
 
 \* names and literals used by the grammar's templates and contexts but not enumerated as tokens
-AuxTok == {"y", "s", "b", "a", "t", "r", "c", "it", "u", "m", "w", "ca", "nv", "n", "p", "q", "g", "e", "z", "h",
+AuxTok == {"y", "s", "b", "a", "t", "r", "c", "it", "u", "m", "w", "ca", "nv", "f2", "mkt", "mkr", "mka", "mki", "n", "p", "q", "g", "e", "z", "h",
            "2", "5", "64", "99999999999999999999",
            "\"@valid\"", "\"@invalid\"", "\"@illtyped\"", "\"@missing\"", "\"@dir\"", "\"@binary\"",
            "\"@self\""}
@@ -217,7 +217,7 @@ IterLit == <<"[", "1", "]", "~">>
 LitLeaves == {<<"1">>, <<"0">>, <<"1.5">>, <<"\"s\"">>, <<"true">>, <<"()">>, <<"[", "]">>,
               FnLit, CellLit, IterLit}
 \* (ca: a cell holding an array, nv: a parameter of type ! - both found necessary: see the findings)
-VarLeaves == {<<v>> : v \in {"x", "y", "s", "b", "a", "t", "r", "f", "c", "it", "u", "m", "w", "ca", "nv"}}
+VarLeaves == {<<v>> : v \in {"x", "y", "s", "b", "a", "t", "r", "f", "f2", "c", "it", "u", "m", "w", "ca", "nv"}}
 ELeaves == {Leaf("E", ts) : ts \in LitLeaves \cup VarLeaves \cup {<<"struct", "{", "}">>}}
 \* reduced leaf set used for the three-child forms in the quick tier
 QLeaves == {Leaf("E", ts) : ts \in {<<"1">>, <<"\"s\"">>, <<"x">>, <<"()">>, <<"[", "]">>, FnLit, <<"c">>,
@@ -329,29 +329,46 @@ GrowWith(a, FS, Pool(_, _)) ==
 (* parameter type.                                                           *)
 (***************************************************************************)
 HostPrelude == <<"x", ":=", "1", ";", "y", ":=", "1.5", ";", "s", ":=", "\"s\"", ";", "b", ":=", "true", ";",
-   "a", ":=", "[", "1", ",", "2", "]", ";", "t", ":=", "(", "1", ",", "\"s\"", ")", ";",
+   "a", ":=", "[", "1", ",", "2", "]", ";", "t", ":=", "(", "1", ",", "\"s\"", ",", "1.5", ")", ";",
    "r", ":=", "struct", "{", "a", ":=", "1", ",", "b", ":=", "1.5", "}", ";",
    "f", ":=", "(", "p", ":", "int", ")", "->", "int", "{", "return", "p", "}", ";",
+   "f2", ":=", "(", "p", ":", "int", ",", "q", ":", "int", ")", "->", "int", "{", "return", "p", "}", ";",
    "c", ":=", "mut", "1", ";", "it", ":=", "[", "1", ",", "2", "]", "~", ";",
    "u", ":=", "1", ";", "m", ":=", "mut", "1", ";", "w", ":=", "\"s\"", ";",
    "ca", ":=", "mut", "[", "int", "]", "[", "1", "]", ";", "nv", ":=", "[", "]">>
 FnHead == <<"g", ":=", "(", "x", ":", "int", ",", "y", ":", "float", ",", "s", ":", "string", ",",
-              "b", ":", "bool", ",", "a", ":", "[", "int", "]", ",", "t", ":", "(", "int", ",", "string", ")", ",",
+              "b", ":", "bool", ",", "a", ":", "[", "int", "]", ",", "t", ":", "(", "int", ",", "string", ",", "float", ")", ",",
               "r", ":", "struct", "{", "a", ":", "int", ",", "b", ":", "float", "}", ",",
-              "f", ":", "(", "int", ")", "->", "int", ",", "c", ":", "mut", "int", ",",
+              "f", ":", "(", "int", ")", "->", "int", ",", "f2", ":", "(", "int", ",", "int", ")", "->", "int", ",", "c", ":", "mut", "int", ",",
               "it", ":", "(", ")", "->", "(", "bool", ",", "int", ")", ",", "u", ":", "int", "|", "float", ",",
               "m", ":", "mut", "int", "|", "mut", "float", ",", "w", ":", "any", ",",
               "ca", ":", "mut", "[", "int", "]", ",", "nv", ":", "!", ")", "->", "any", "{">>
-Ctx(name, pre, post) == [name |-> name, pre |-> pre, post |-> post]
+Ctx(name, pre, post) == [name |-> name, pre |-> pre, post |-> post, mentions |-> ""]
+\* Top level, nothing constant: f is a declared function, the other names are bound to results of
+\* calls or to cells, so the checker knows their types but not their values.
+TopPrelude == <<"f", ":=", "(", "p", ":", "int", ")", "->", "int", "{", "return", "p", "}", ";",
+   "f2", ":=", "(", "p", ":", "int", ",", "q", ":", "int", ")", "->", "int", "{", "return", "p", "}", ";",
+   "mkt", ":=", "(", ")", "->", "(", "int", ",", "string", ",", "float", ")", "{", "return", "(", "1", ",", "\"s\"", ",", "1.5", ")", "}", ";",
+   "t", ":=", "mkt", "(", ")", ";",
+   "mkr", ":=", "(", ")", "->", "struct", "{", "a", ":", "int", ",", "b", ":", "float", "}", "{",
+      "return", "struct", "{", "a", ":=", "1", ",", "b", ":=", "1.5", "}", "}", ";", "r", ":=", "mkr", "(", ")", ";",
+   "mka", ":=", "(", ")", "->", "[", "int", "]", "{", "return", "[", "1", ",", "2", "]", "}", ";", "a", ":=", "mka", "(", ")", ";",
+   "mki", ":=", "(", ")", "->", "(", ")", "->", "(", "bool", ",", "int", ")", "{", "return", "[", "1", ",", "2", "]", "~", "}", ";",
+   "it", ":=", "mki", "(", ")", ";",
+   "c", ":=", "mut", "1", ";", "m", ":=", "mut", "1.5", ";", "ca", ":=", "mut", "[", "int", "]", "[", "1", "]", ";">>
+\* "v := <case>" at top level, for the cases that mention v: the statement rebinds a name that its
+\* own initialiser uses (found necessary: see the findings); for t also by destructuring
+RebindNames == {"f", "t", "r", "a", "it", "c", "m", "ca"}
+Rebind(v) == [name |-> "rebind:" \o v, pre |-> TopPrelude \o <<v, ":=">>, post |-> <<>>, mentions |-> v]
 Contexts == {
   Ctx("host", <<>>, <<>>),
-  Ctx("top", <<"f", ":=", "(", "p", ":", "int", ")", "->", "int", "{", "return", "p", "}", ";",
-               "c", ":=", "mut", "1", ";", "it", ":=", "[", "1", ",", "2", "]", "~", ";",
-               "m", ":=", "mut", "1.5", ";", "ca", ":=", "mut", "[", "int", "]", "[", "1", "]", ";">>, <<>>),
+  Ctx("top", TopPrelude, <<>>),
   Ctx("fn", FnHead \o <<"loop", "{">>, <<";", "break", "}", "return", "()", "}">>),
   \* the case is bound to a name, so its static type is demanded
-  Ctx("use", FnHead \o <<"loop", "{", "n", ":=">>, <<";", "break", "}", "return", "()", "}">>)
-}
+  Ctx("use", FnHead \o <<"loop", "{", "n", ":=">>, <<";", "break", "}", "return", "()", "}">>),
+  [name |-> "rebind_des:t", pre |-> TopPrelude \o <<"(", "t", ",", "q", ",", "e", ")", ":=">>, post |-> <<>>,
+   mentions |-> "t"]
+} \cup {Rebind(v) : v \in RebindNames}
 TypeContext == Ctx("type", <<"h", ":=", "(", "p", ":">>, <<")", "{", "}">>)
 
 (***************************************************************************)
